@@ -134,10 +134,15 @@ def h_surface(params, vals, ctx):
         return _after_other_case(ch, vals, ctx, bk)
     if params["kind"] == "tape-name":
         return _tape_name(ch, vals, ctx, bk)
-    text = {"ascii": '.ascii "a{S_1}"\n', "char": ".word '{S_1}\n"}[params["kind"]]
+    text = {"ascii": '.ascii "a{S_1}"\n', "char": ".word '{S_1}\n",
+            "ascii-late-byte": '.ascii "a{S_1}"<late>\nlate = 1\n', "ascii-late-byte-first": '.ascii <late>"a{S_1}"\n.byte late2\nlate = 1\nlate2 = 2\n'}[params["kind"]]
     o = assemble([("a.mac", text)], vals, route=ctx.route, charset="bk")
     ctx.observe_outcome(o)
     ctx.reach(o.status in ("ok", "failed"))
+    # the same text once more in the same process (fresh parse, fresh Compiler): the verdict may not change
+    o_again = assemble([("b.mac", ".word 1\n" + text)], vals, route=ctx.route, charset="bk")
+    if o_again.status != o.status or o_again.error_ids != o.error_ids:
+        return False
     encodable = any(ch in e for e in bk.DECODING_TABLE)
     if not encodable:
         return o.status == "failed" and "invalid-character" in o.error_ids
@@ -146,6 +151,10 @@ def h_surface(params, vals, ctx):
     byte = [i for i, e in enumerate(bk.DECODING_TABLE) if ch in e][0]
     if params["kind"] == "ascii":
         return bytes(o.code) == bytes([97, byte])
+    if params["kind"] == "ascii-late-byte":
+        return bytes(o.code) == bytes([97, byte, 1])
+    if params["kind"] == "ascii-late-byte-first":
+        return bytes(o.code) == bytes([1, 97, byte, 2])
     return bytes(o.code) == bytes([byte, 0])
 
 
@@ -234,6 +243,6 @@ def obligations(tier, seed):
                   vars={"S_1": "str"}, timeout=900))
     obs.append(Ob(oid="surface/text-sweep", harness=P + "h_text_sweep", params={}, vars={"K": "int"}, timeout=1500, per_path=300,
                   note="concrete side check: all BMP characters as literal source text, 16 blocks of 4096"))
-    for kind in ("ascii", "char"):
+    for kind in ("ascii", "char", "ascii-late-byte", "ascii-late-byte-first"):
         obs.append(Ob(oid=f"surface/{kind}", harness=P + "h_surface", params={"kind": kind, "windows": w2}, vars={"S_1": "str"}, timeout=900))
     return obs
